@@ -13,6 +13,16 @@ Fixpoint bad_indices_from (i : nat) (l : list bool) : list nat :=
   | false :: t => i :: bad_indices_from (S i) t
   end.
 Definition bad_indices := bad_indices_from 0.
+(* result codes of a comparison: 0 agree, 1 disagree, 2 outside the model's domain *)
+Definition cb (b : bool) : nat := if b then 0%nat else 1%nat.
+Fixpoint nonzero_codes_from (i : nat) (l : list nat) : list (nat * nat) :=
+  match l with
+  | [] => []
+  | O :: t => nonzero_codes_from (S i) t
+  | c :: t => (i, c) :: nonzero_codes_from (S i) t
+  end.
+Definition nonzero_codes := nonzero_codes_from 0.
+
 
 Fixpoint list_eqb {A} (e : A -> A -> bool) (a b : list A) : bool :=
   match a, b with
@@ -28,6 +38,7 @@ Definition exn_eqb (a b : exn) : bool :=
   | ValueError, ValueError | TypeError, TypeError | IndexError, IndexError
   | ZeroDivisionError, ZeroDivisionError | RecursionError, RecursionError => true
   | UserError i, UserError j => Nat.eqb i j
+  | Unsupported, Unsupported => true
   | _, _ => false
   end.
 Definition res_eqb {A} (e : A -> A -> bool) (a b : res A) : bool :=
@@ -35,6 +46,11 @@ Definition res_eqb {A} (e : A -> A -> bool) (a b : res A) : bool :=
   | Ok x, Ok y => e x y
   | Err x, Err y => exn_eqb x y
   | _, _ => false
+  end.
+Definition cres_code {A} (e : A -> A -> bool) (model expected : res A) : nat :=
+  match model with
+  | Err Unsupported => 2%nat
+  | _ => cb (res_eqb e model expected)
   end.
 (* drop zero-count entries: comparison "as count functions" *)
 Definition nz (h : hist Qc) : hist Qc := filter (fun oc => negb (snd oc =? 0)) h.
